@@ -25,14 +25,18 @@ func optionConfigs() []gen.Config {
 	jsonOnly.Tags = []string{"json"}
 	onlyNoExtra := noExtra
 	onlyNoExtra.OnlyModels = true
-	return []gen.Config{d, noExtra, only, sized, jsonOnly, onlyNoExtra}
+	// options in combination: sized integers in the CLI's default mode with a reduced tag list
+	sizedNoExtraJSON := noExtra
+	sizedNoExtraJSON.MinSizedInts = true
+	sizedNoExtraJSON.Tags = []string{"json"}
+	return []gen.Config{d, noExtra, only, sized, jsonOnly, onlyNoExtra, sizedNoExtraJSON}
 }
 
 // C01 — every emitted file is valid, self-contained Go that compiles.
 func C01(c *core.Ctx) {
 	c.NoDefaultModeTwin = true // the option sets of this driver include the run without --extra-imports
 	c.Explanation = engineAText +
-		"C01: over the broad union of families × option sets {default, no --extra-imports, --only-models, --min-sized-ints, --tags json, only-models without extra imports} every emitted file skeleton must " +
+		"C01: over the broad union of families × option sets {default, no --extra-imports, --only-models, --min-sized-ints, --tags json, only-models without extra imports, --min-sized-ints without extra imports with --tags json} every emitted file skeleton must " +
 		"(A-SYN) parse; (A-TYP) type-check with go/types against exactly the imports the generator registered for that run, using the real export data of encoding/json, fmt, errors, reflect, regexp, math, " +
 		"strings, time, net/netip, yaml.v3, mapstructure and pkg/types — so a missing or unused import, an undeclared or duplicate identifier, or an ill-typed literal in ANY keyword/option combination is an " +
 		"error; (A-CTX) every hole must sit in a lexical context compatible with its sanitisation (identifier <= synthesised identifier; \"…\" <= %q-quoted; back-quoted literal or struct tag <= never raw schema " +
